@@ -169,5 +169,5 @@ def main(argv):
             loops = gen_case(ck.rng, k + 1, plan)
             vals = [v for v in pick_values(ck.rng, loops, nv + 6) if nonneg_for_long(loops)(v)][:nv]
             cases.append(Case(k + 1, loops, vals))
-    run_cases(ck, hb, db, cases, "loops", batch=70 if ck.tier == "quick" else 100)
+    run_cases(ck, hb, db, cases, "loops", batch=28 if ck.tier == "quick" else 80)
     ck.finish(META["level_text"])
